@@ -216,11 +216,16 @@ func (a *Agent) handleICMPOpenAck(peerID identity.AgentID, frame *protocol.Frame
 			return
 		}
 
-		if sessionKey != nil {
-			ingress.mu.Lock()
-			ingress.SessionKey = sessionKey
-			ingress.mu.Unlock()
+		if sessionKey == nil {
+			// Our ICMP_OPEN always carries an ephemeral key. An ACK without one
+			// means the key exchange was stripped on the path; echo payloads
+			// would cross every transit agent in clear.
+			ingress.closePendingOpen(fmt.Errorf("ICMP_OPEN_ACK without ephemeral key: refusing unencrypted session"))
+			return
 		}
+		ingress.mu.Lock()
+		ingress.SessionKey = sessionKey
+		ingress.mu.Unlock()
 
 		ingress.closePendingOpen(nil)
 		return
@@ -247,11 +252,13 @@ func (a *Agent) handleICMPOpenAck(peerID identity.AgentID, frame *protocol.Frame
 		return
 	}
 
-	if sessionKey != nil {
-		wsSession.mu.Lock()
-		wsSession.SessionKey = sessionKey
-		wsSession.mu.Unlock()
+	if sessionKey == nil {
+		wsSession.closePendingOpenWS(fmt.Errorf("ICMP_OPEN_ACK without ephemeral key: refusing unencrypted session"))
+		return
 	}
+	wsSession.mu.Lock()
+	wsSession.SessionKey = sessionKey
+	wsSession.mu.Unlock()
 
 	wsSession.closePendingOpenWS(nil)
 }
